@@ -486,7 +486,8 @@ def c07_cases(rng, tier):
 def c09_cases(rng, tier):
     rows()
     cases = []
-    dists = [I64_MIN, I64_MIN + 1, -(1 << 32), -9, -8, -7, -6, -5, -4, -3, -2, -1, 0, 1, 2, 3, 4, 5, 6, 7, 8, 9, 1 << 32, I64_MAX - 1, I64_MAX]
+    dists = [I64_MIN, I64_MIN + 1, -(1 << 32), -(1 << 32) - 2, -65538, -9, -8, -7, -6, -5, -4, -3, -2, -1, 0, 1, 2, 3, 4, 5, 6, 7, 8, 9, 258, 65538,
+             1 << 32, (1 << 32) + 2, I64_MAX - 1, I64_MAX]
     pad = [P(10), op("POP")] * 3          # 6 ops before, so backward jumps have somewhere to land
     tail = [P(20), op("POP")] * 3 + [P(99)]
     for d in dists:
@@ -514,6 +515,10 @@ def c09_cases(rng, tier):
     cases.append(case(filler + [P(3), P(1), op("JMPIF"), P(7), P(8), P(9)], limit=U64_MAX))
     cases.append(case(filler + [P(1), op("HLTIF"), P(9)], limit=U64_MAX))
     cases.append(case([P(65541), P(1), op("JMPIF")] + filler + [P(9)], limit=U64_MAX))
+    # counts that would be small if narrowed, under a gas limit that only the narrowed loop could meet
+    for n in (258, 65538, (1 << 32) + 2):
+        for up in (0, 1):
+            cases.append(case([P(n), P(up), op("REP"), op("REPC"), op("POP"), op("REPE"), P(-7)], limit=40))
     # repeat: counts x directions, counter observed, body leaves a trace on the stack
     for n in (I64_MIN, -5, -1, 0, 1, 2, 3, 7, 50):
         for up in (0, 1, 2, -1):
@@ -629,8 +634,8 @@ def c11_cases(rng, tier):
     keys = [[], [0], [1], [1, 2], [I64_MAX], [9], [8], [7], [5, 5, 5]]
     for s_ in ("KRNG", "PKRNG", "KREX", "PKREX"):
         for key in keys:
-            for n in (0, 1, 2, 3, -1, I64_MAX):
-                for addr in (0, 1, 3, -1, 50, I64_MAX):
+            for n in (0, 1, 2, 3, -1, 257, 65537, (1 << 32) + 1, I64_MAX):
+                for addr in (0, 1, 3, -1, 50, 65537, (1 << 32) + 1, I64_MAX):
                     for memsz in (0, 4, 12, 40):
                         if rng.random() < (0.25 if tier == "quick" else 1.0) or (addr in (0, 1) and memsz in (12, 40)):
                             st = [33] + (ext if s_.endswith("EX") else []) + key + [len(key), n, addr]
